@@ -341,24 +341,29 @@ func (h *handler) judge(recs []*projgen.StepRec) (accepted, violating, drift int
 const keyRoot = "C18:single-file-root-type-moves-into-warning-block-on-rerun"
 const keyStale = "C18:stale-resolver-file-second-run-changes-output"
 
-var reRootWarn = regexp.MustCompile(`(?s)\n// !!! WARNING !!!\n(//[^\n]*\n)+/\*\n\s*type \w+ struct\s*\{\}\n\*/\n$`)
+var reRootType = regexp.MustCompile(`^type \w+ struct\s*\{\s*\}$`)
 
-// onlyWarnBlockRemoved: after == before without its trailing WARNING block.
+// rootWarnAppended: after == before + a WARNING block (block- or line-comment form) that carries only the root resolver type.
+func rootWarnAppended(before, after []byte) bool {
+	b := bytes.TrimRight(before, "\n")
+	if !bytes.HasPrefix(after, b) || !bytes.HasPrefix(bytes.TrimLeft(after[len(b):], "\n"), []byte("// !!! WARNING !!!")) {
+		return false
+	}
+	if _, had := projgen.WarnText(before); had {
+		return false
+	}
+	txt, ok := projgen.WarnText(after)
+	return ok && reRootType.MatchString(strings.TrimSpace(txt))
+}
+
+// onlyWarnBlockRemoved: after == before without its trailing WARNING block (either representation:
+// everything from the marker line to the end of the file).
 func onlyWarnBlockRemoved(before, after []byte) bool {
 	i := bytes.Index(before, []byte("\n// !!! WARNING !!!\n"))
 	if i < 0 {
 		return false
 	}
 	return bytes.Equal(bytes.TrimSpace(before[:i]), bytes.TrimSpace(after))
-}
-
-// rootWarnAppended: after == before + a WARNING block holding only the root resolver type.
-func rootWarnAppended(before, after []byte) bool {
-	if !bytes.HasPrefix(after, bytes.TrimRight(before, "\n")) {
-		return false
-	}
-	rest := after[len(bytes.TrimRight(before, "\n")):]
-	return reRootWarn.Match(rest)
 }
 
 func tail(s string, n int) string {
